@@ -368,6 +368,24 @@ CHECKS = {
         design_ref="DESIGN.md 5 C03",
         note=NOTE_COMMON + " Member equality uses unit-weight distributions; the weighted-mean clause is checked for unit weights only (the statement leaves the weighting convention open). Tolerance 5e-5.",
     ),
+    "C06": dict(
+        text=("Prism.tla states what a reduced scattering matrix is: beams = the support of the equivalent probe's aperture on the "
+              "(interpolated) reciprocal lattice (exact rationals: every lattice point inside the cutoff, none beyond the soft edge, "
+              "inversion symmetric, no duplicates), the reduction = the exit wave of the equivalent probe (with interpolation the "
+              "periodically repeated small-cell probe, windowed periodically at rint(p/s) - w div 2). PrismImpl.tla transcribes "
+              "minimum_crop / wrapped_slices / wrapped_crop_2d / batch_crop_2d and TLC checks it against Prism!WindowIndex for every "
+              "array size <= 5 (thorough 7), window and pair of corners in [-2n-1, 3n+1]. Conformance: SMatrix.wave_vectors on 9 "
+              "rational cell/cutoff combinations x 6 interpolations; the real SMatrixArray._reduce_to_waves on an index-coded array for "
+              "n in {4, 6, 8, 9} and corners over the same range; and the scenario space enumerated by TLC (potential none / atoms / "
+              "frozen phonons x 6 aberration sets x 5 scan kinds incl. positions outside and spanning more than the cell x "
+              "interpolation (1..3, 1..2) x downsample x lazy x batching = 4320 cases, quick: seeded 70) run through SMatrix.reduce / "
+              "SMatrixArray.reduce and compared with Probe.multislice / Probe.scan (no interpolation) or the tiled small-cell probe "
+              "sent through Waves.multislice and windowed (interpolation). PrismTrace.tla decides waves, detector values, shapes and "
+              "lazy == eager."),
+        technique="TLA+ model of the window extraction checked by TLC against the property-level spec; TLA+ scenario enumeration and acceptance predicate over PRISM-vs-multislice differential runs; TLC trace validation",
+        design_ref="DESIGN.md 5 C06",
+        note=NOTE_COMMON + " With interpolation only the annular detector is compared (the statement promises the window probes); rint ties at half pixels are avoided by the chosen positions. Tolerance 5e-5.",
+    ),
 }
 
 NOT_APPLICABLE = {
